@@ -21,5 +21,10 @@ def main(run):
     if want(run, 'P') or want(run, 'T'):
       with anchored(run, 'C06/P'):
         deductive(run)
+    if want(run, 'F'):
+      with anchored(run, 'C06/F'):
+        # the ring / component views the property names are memoised: every covered mutator leaves none of them stale (engine F, keys read by these observables)
+        from checks.fpart import run_F
+        run_F(run, entry_points=['sssr', 'atoms_rings', 'atoms_rings_sizes', 'rings_count', 'ring_atoms', 'connected_components', 'connected_components_count', 'not_special_connectivity', 'skin_graph', 'calc_labels'])
     bounded_part(run, 'C06')
     return FINISH
